@@ -479,6 +479,19 @@ class Interp:
             return v if not isinstance(v, list) else {"v": "list", "items": v, "field": path, "open": True}
         return H("field", "self." + path, field=path)
 
+    def _self_field_type(self, field, st):
+        """Declared type of `self.FIELD` in the impl the current function belongs to (None when not a plain struct field)."""
+        fn0 = st.env.get("__fn")
+        if fn0 is None or getattr(fn0, "impl", None) is None or not field or "." in field:
+            return None
+        sd = self.f.structs.get(norm_ty(fn0.impl["self_ty"]).split("<")[0])
+        if not sd:
+            return None
+        for fd in sd.get("fields", []):
+            if fd.get("name") == field:
+                return norm_ty(fd["ty"])
+        return None
+
     def _state_ty(self, path, st):
         lay = st.env.get("__layout")
         if not lay:
@@ -1793,6 +1806,28 @@ class Interp:
     def ev_mcall(self, e, st):
         m = e["m"]
         recv = e["recv"]
+        if m in ("map_err", "inspect_err", "inspect") and len(e["args"]) == 1 and e["args"][0].get("k") == "closure" and len(e["args"][0]["params"]) == 1:
+            # RESULT.inspect(..) / .inspect_err(..) hand the result on; so does `.map_err(|e| { log::warn!(..); e })` — a closure
+            # that returns the error it was given.  The result of a call stays the event it is (who was called, with what).
+            probe_ = st.fork()
+            got_, same_ = [], True
+            for s1, rv in self.ev(recv, probe_):
+                if not (isinstance(rv, dict) and (rv.get("v") == "sub" or (rv.get("v") == "hole" and rv.get("kind") in ("mcall", "call", "mgr")))):
+                    same_ = False
+                    break
+                if m == "map_err":
+                    ph = H("name", "<the error>")
+                    n_unk = len(s1.unknown)
+                    try:
+                        res_ = self.call_closure({"node": e["args"][0], "env": dict(s1.env)}, [ph], s1.fork())
+                    except Exception:
+                        res_ = []
+                    if not res_ or not all(canon(v_) == canon(ph) and len(s2.unknown) == n_unk and len(s2.effects) == len(s1.effects) for s2, v_ in res_):
+                        same_ = False
+                        break
+                got_.append((s1, rv))
+            if same_ and got_:
+                return got_
         if m == "for_each" and len(e["args"]) == 1 and e["args"][0].get("k") == "closure" and len(e["args"][0]["params"]) == 1:
             # ITER.for_each(|PAT| BODY) is `for PAT in ITER { BODY }`
             clo = e["args"][0]
@@ -2119,6 +2154,13 @@ class Interp:
                 s2.fields[mk] = [x for x in s2.fields.get(mk, []) if x[0] != canon(rv["key"])] + [(canon(rv["key"]), v2)]
                 out_.append((s2, v2))
             return out_
+        if k == "hole" and rv.get("kind") == "field" and m in ("replace", "insert") and len(argv) == 1 and (self._self_field_type(rv.get("field"), st) or "").startswith("Option<"):
+            # Option::replace / Option::insert on a field of self: the field is Some(argument) afterwards — an assignment;
+            # `replace` hands back what was there before, `insert` the new content
+            new_ = {"v": "some", "x": argv[0], "src": src(e)}
+            st.fields[rv["field"]] = new_
+            st.effects.append(("assign", rv["field"], new_))
+            return [(st, rv if m == "replace" else argv[0])]
         if k == "hole" and rv.get("kind") == "field" and m in MUTATORS:
             # the generator's own state is changed in a way the interpreter has no model for: every rule that reads the
             # paths of this function must treat them as not understood (fail closed)
